@@ -129,7 +129,12 @@ type Op struct {
 	Node int               `json:"node"`
 	Ref  string            `json:"ref,omitempty"`
 	Ann  map[string]string `json:"ann,omitempty"` // annotations of the descriptor passed to Tag
-	Err  string            `json:"err,omitempty"` // outcome class, filled by the executor
+	// further fields of the descriptor passed to Tag
+	Platform     *ocispec.Platform `json:"platform,omitempty"`
+	ArtifactType string            `json:"artifactType,omitempty"`
+	URLs         []string          `json:"urls,omitempty"`
+	Data         bool              `json:"data,omitempty"` // embed the node's bytes as descriptor.data
+	Err          string            `json:"err,omitempty"`  // outcome class, filled by the executor
 }
 
 func (o Op) String() string {
@@ -137,10 +142,23 @@ func (o Op) String() string {
 	case "push", "pushbad", "delete":
 		return fmt.Sprintf("%s(%d)", o.Kind, o.Node)
 	case "tag":
+		x := ""
 		if len(o.Ann) > 0 {
-			return fmt.Sprintf("tag(%d,%q,+ann)", o.Node, o.Ref)
+			x += ",+ann"
 		}
-		return fmt.Sprintf("tag(%d,%q)", o.Node, o.Ref)
+		if o.Platform != nil {
+			x += ",+platform"
+		}
+		if o.ArtifactType != "" {
+			x += ",+artifactType"
+		}
+		if len(o.URLs) > 0 {
+			x += ",+urls"
+		}
+		if o.Data {
+			x += ",+data"
+		}
+		return fmt.Sprintf("tag(%d,%q%s)", o.Node, o.Ref, x)
 	case "untag":
 		return fmt.Sprintf("untag(%q)", o.Ref)
 	}
@@ -172,6 +190,16 @@ func Apply(ctx context.Context, s *oci.Store, nodes []Node, op Op) error {
 			for k, v := range op.Ann {
 				d.Annotations[k] = v
 			}
+		}
+		if op.Platform != nil {
+			p := *op.Platform
+			p.OSFeatures = append([]string{}, op.Platform.OSFeatures...)
+			d.Platform = &p
+		}
+		d.ArtifactType = op.ArtifactType
+		d.URLs = append([]string{}, op.URLs...)
+		if op.Data {
+			d.Data = append([]byte{}, nodes[op.Node].Bytes...)
 		}
 		return s.Tag(ctx, d, op.Ref)
 	case "untag":
@@ -272,6 +300,45 @@ func (g *OpGen) ann(rng *rand.Rand) map[string]string {
 	return nil
 }
 
+var tagPlatforms = []ocispec.Platform{
+	{OS: "linux", Architecture: "amd64"},
+	{OS: "linux", Architecture: "arm", Variant: "v7"},
+	{OS: "windows", Architecture: "amd64", OSVersion: "10.0.17763.1234", OSFeatures: []string{"win32k"}},
+	{OS: "linux", Architecture: "arm64", Variant: "v8", OSFeatures: []string{"f1", "f2"}},
+}
+
+// extras decorates a tag operation with further descriptor fields (platform,
+// artifactType, urls, data), alone and combined; force makes at least one
+// field set.
+func (g *OpGen) extras(rng *rand.Rand, op *Op, force bool) {
+	mask := 0
+	switch x := rng.IntN(10); {
+	case x < 4 && !force:
+		return
+	case x < 8:
+		mask = 1 << rng.IntN(4) // one field alone
+	default:
+		mask = 1 + rng.IntN(15) // a combination
+	}
+	if mask&1 != 0 {
+		p := tagPlatforms[rng.IntN(len(tagPlatforms))]
+		op.Platform = &p
+	}
+	if mask&2 != 0 {
+		op.ArtifactType = []string{"application/vnd.test.sig", "application/vnd.example+type", "text/plain"}[rng.IntN(3)]
+	}
+	if mask&4 != 0 {
+		op.URLs = []string{"https://example.invalid/a?b=<c>&d", "https://mirror.invalid/x"}[:1+rng.IntN(2)]
+	}
+	if mask&8 != 0 {
+		if len(g.Nodes[op.Node].Bytes) > 0 && len(g.Nodes[op.Node].Bytes) <= 1024 {
+			op.Data = true
+		} else if mask == 8 {
+			op.ArtifactType = "application/vnd.test.nodata"
+		}
+	}
+}
+
 // Next draws the next operation.
 func (g *OpGen) Next(ctx context.Context, rng *rand.Rand, s *oci.Store) Op {
 	have, missing := g.present(ctx, s)
@@ -324,13 +391,39 @@ func (g *OpGen) Next(ctx context.Context, rng *rand.Rand, s *oci.Store) Op {
 			if rng.IntN(25) == 0 {
 				ref = g.Nodes[id].Desc.Digest.String() // tagging by the node's own digest
 			}
-			return Op{Kind: "tag", Node: id, Ref: ref, Ann: g.ann(rng)}
+			op := Op{Kind: "tag", Node: id, Ref: ref, Ann: g.ann(rng)}
+			g.extras(rng, &op, false)
+			return op
 		case "retag":
 			if len(have) == 0 || len(used) == 0 {
 				continue
 			}
 			g.TagCount++
-			return Op{Kind: "tag", Node: pickTagTarget(rng, g.Nodes, have), Ref: used[rng.IntN(len(used))], Ann: g.ann(rng)}
+			ref := used[rng.IntN(len(used))]
+			if rng.IntN(3) == 0 {
+				// re-tag of the same content under the same name: only the
+				// platform / artifactType / urls / data of the descriptor change
+				if cur, err := s.Resolve(ctx, ref); err == nil {
+					for _, n := range g.Nodes {
+						if n.Desc.Digest == cur.Digest {
+							op := Op{Kind: "tag", Node: n.ID, Ref: ref}
+							for k, v := range cur.Annotations {
+								if k != ocispec.AnnotationRefName {
+									if op.Ann == nil {
+										op.Ann = map[string]string{}
+									}
+									op.Ann[k] = v
+								}
+							}
+							g.extras(rng, &op, true)
+							return op
+						}
+					}
+				}
+			}
+			op := Op{Kind: "tag", Node: pickTagTarget(rng, g.Nodes, have), Ref: ref, Ann: g.ann(rng)}
+			g.extras(rng, &op, false)
+			return op
 		case "untag":
 			if bad {
 				if len(free) > 0 {
